@@ -150,6 +150,15 @@ CHECKS["C16"] = dict(
     note="Trusts validate_component as the published catalogue; only constructible configurations are judged.",
     design="DESIGN.md section 4 C16")
 
+CHECKS["C17"] = dict(
+    technique="Hypothesis-generated YAML configurations with a planted invalidity class x CLI flag combinations x supplied/missing context keys x failing run index; oracle from the generator's own knowledge of the class (order-sensitive required keys), observed through exit code, marker/sink files and the trace directory; differential in-process vs real subprocess on a sample",
+    text=("Generated-input search (3.2k CLI invocations quick, 38k thorough). Each case knows which class it is (20 invalidity classes "
+          "or valid) and which flags it passes; rejected / validate / dry cases must leave no marker line, no sink file and no trace "
+          "entry and exit with the documented code; executed cases must exit 0 iff every planned run completed, 4 otherwise with no "
+          "run started after the failed one."),
+    note="Trusts the marker components as the witness of execution and the in-process driver (cross-checked against subprocesses).",
+    design="DESIGN.md section 4 C17")
+
 NOT_YET = {}
 
 
